@@ -233,6 +233,32 @@ def rule_env(ctx, py):
     ctx.floor(R, 4)
 
 
+def rule_groupkey(ctx, py):
+    """C13.GROUPKEY -- a per-environment dictionary may group labels in one key ("cyt, mem": value): each label of the group is
+    stripped of its surrounding blanks on its own before it becomes a key, otherwise the 2nd, 3rd ... labels keep a leading blank
+    and never match an environment (those cells silently fall back to 'default')"""
+    R = "C13.GROUPKEY"
+    from .. import pysym
+    f = py.fn("value_processing.process_unitvar_input")
+    n = 0
+    for lp in [x for x in ast.walk(f) if isinstance(x, ast.For) and isinstance(x.target, ast.Name)]:
+        it = pysym.inline(lp.iter, f)
+        t = pyfe.src(it).replace(" ", "").replace('"', "'")
+        if ".split(','" not in t:
+            continue
+        var = lp.target.id
+        pre_stripped = isinstance(it, ast.ListComp) and pyfe.src(it.elt).replace(" ", "").endswith(".strip()")
+        for st in ast.walk(lp):
+            if isinstance(st, ast.Assign) and isinstance(st.targets[0], ast.Subscript) and var in pyfe.src(st.targets[0].slice):
+                key = pysym.isrc(st.targets[0].slice, f, stop={var}).replace(" ", "")
+                n += 1
+                ctx.check(pre_stripped or key == "%s.strip()" % var, R, st, f._qual, "key %s for %s in %s" % (key, var, t[:40]),
+                          "each label of a grouped key stripped on its own", "the labels of a grouped key are used as `%s` (group "
+                          "split as `%s`): blanks after the commas stay in the 2nd and later labels, which then match no "
+                          "environment" % (key, t[:50]))
+    ctx.floor(R, 2)
+
+
 def run(ctx):
     py = ctx.py
     rule_index(ctx, py)
@@ -247,6 +273,11 @@ def run(ctx):
     # set_state / set_at convert the given amount into the stored units, not the other way round
     from . import c06
     c06.rule_convert_args(ctx, ctx.py, "C13.CONVERT")
+    rule_groupkey(ctx, ctx.py)
+    # the volume of a node is read in the units its own level declares (shared with C04.INHERIT)
+    from ..core import borrow as _b
+    from . import c04 as _c04
+    _b(ctx, "C13", _c04.rule_inherit, ctx.py, "C13.INHERIT")
     # shared clauses: cell index of a position (C15.RADIX / ENT) and the ctypes hand-over of state and chemostat map
     from ..core import borrow
     from . import c15
